@@ -91,7 +91,7 @@ Proof.
     destruct s as [aux0 token0 canrun0 running0 terminated0 jobcount0 jobs0 timers0 phase0 background0 batch0 tph0 wakers0 pending0
                    spc0 natural0 executed0 accepted0 refused0 cbs0];
     cbn in *; unfold send_token, offer, dec_bg in H; cbn in H.
-  all: try (timeout 60 (split_matches H; inv_some; try (specialize (Crun eq_refl); subst); ctl_only T Hc Hp)).
+  all: try (timeout 1800 (split_matches H; inv_some; try (specialize (Crun eq_refl); subst); ctl_only T Hc Hp)).
 Qed.
 
 Lemma deliver_T s m s' : InvT s -> pend_ok (timers s) (Some m) -> deliver s m = Some s' -> InvT s'.
@@ -200,7 +200,7 @@ Proof.
   all: destruct s as [aux0 token0 canrun0 running0 terminated0 jobcount0 jobs0 timers0 phase0 background0 batch0 tph0 wakers0 pending0
                    spc0 natural0 executed0 accepted0 refused0 cbs0];
     cbn in *; unfold send_token, offer, dec_bg in H; cbn in H.
-  all: timeout 60 (split_matches H; inv_some; cbn; apply keeps_refl).
+  all: timeout 1800 (split_matches H; inv_some; cbn; apply keeps_refl).
 Qed.
 
 Lemma deliver_keeps s m s' : InvT s -> pend_ok (timers s) (Some m) -> deliver s m = Some s' -> keeps_ts (timers s) (timers s').
